@@ -48,15 +48,20 @@ class SymArray(object):
 
 
 class State(object):
-    def __init__(self, env=None, pc=None, trace=None):
+    def __init__(self, env=None, pc=None, trace=None, frames=None):
         self.env = env if env is not None else {}
         self.pc = pc if pc is not None else []
         self.trace = trace if trace is not None else []
+        # environments of the callers of a function inlined at statement
+        # level: cloned together with env so that aliasing is preserved
+        self.frames = frames if frames is not None else []
 
     def clone(self):
         memo = {}
         env = {k: _clone(v, memo) for k, v in self.env.items()}
-        return State(env, list(self.pc), list(self.trace))
+        frames = [{k: _clone(v, memo) for k, v in f.items()}
+                  for f in self.frames]
+        return State(env, list(self.pc), list(self.trace), frames)
 
 
 def _clone(v, memo):
@@ -70,7 +75,10 @@ def _clone(v, memo):
     if isinstance(v, dict):
         if id(v) in memo:
             return memo[id(v)]
-        n = {}
+        try:
+            n = v.__class__()       # keep dict subclasses (defaultdict ...)
+        except Exception:
+            n = {}
         memo[id(v)] = n
         for k, x in v.items():
             n[k] = _clone(x, memo)
@@ -93,6 +101,12 @@ def _clone(v, memo):
         return n
     if isinstance(v, tuple):
         return tuple(_clone(x, memo) for x in v)
+    if hasattr(v, 'vc_clone'):
+        if id(v) in memo:
+            return memo[id(v)]
+        n = v.vc_clone(memo, _clone)
+        memo[id(v)] = n
+        return n
     return v
 
 
@@ -277,8 +291,16 @@ class Executor(object):
             return m(node, st)
         except _DeadPath:
             return []
+        except _RaiseSignal as rs:
+            return [(st, ('raise', rs.raised))]
 
     def stmt_Pass(self, node, st):
+        return [(st, None)]
+
+    def stmt_FunctionDef(self, node, st):
+        # a nested helper: free variables are looked up in the defining
+        # environment (read-only capture)
+        st.env[node.name] = _LocalFunc(self.module, node, st.env)
         return [(st, None)]
 
     def stmt_Global(self, node, st):
@@ -300,11 +322,16 @@ class Executor(object):
         if isinstance(node.value, ast.Constant):
             self.dropped.add('docstring')
             return [(st, None)]
-        return [(s2, None) for s2, _ in self.eval_forking(node.value, st)]
+        return [(s2, ('raise', v.raised) if isinstance(v, _RaisedVal)
+                 else None)
+                for s2, v in self.eval_forking(node.value, st)]
 
     def stmt_Assign(self, node, st):
         out = []
         for s2, v in self.eval_forking(node.value, st):
+            if isinstance(v, _RaisedVal):
+                out.append((s2, ('raise', v.raised)))
+                continue
             for t in node.targets:
                 self.assign(t, v, s2)
             out.append((s2, None))
@@ -332,7 +359,8 @@ class Executor(object):
     def stmt_Return(self, node, st):
         if node.value is None:
             return [(st, ('return', None))]
-        return [(s2, ('return', v))
+        return [(s2, ('raise', v.raised) if isinstance(v, _RaisedVal)
+                 else ('return', v))
                 for s2, v in self.eval_forking(node.value, st)]
 
     def stmt_Raise(self, node, st):
@@ -578,6 +606,8 @@ class Executor(object):
                                   (self.where(node), fn, k))
                 out.extend(self.cut_loop(node, s1, spec,
                                          _Range(0, it.length, 1), seq=it))
+            elif isinstance(it, (set, frozenset)):
+                out.extend(self.unroll_for(node, s1, sorted(it)))
             elif isinstance(it, (list, tuple)):
                 out.extend(self.unroll_for(node, s1, list(it)))
             elif isinstance(it, dict):
@@ -890,20 +920,100 @@ class Executor(object):
 
     # ---------------------------------------------------------- expressions
     def eval_forking(self, node, st):
-        """Evaluate an expression that may call inlined functions with
-        several outcomes.  -> list of (state, value).  Most expressions have
-        exactly one outcome."""
-        self._pending_forks = None
+        """Evaluate an expression whose value is needed at statement level.
+        -> list of (state, value).  A call to an inlined function that forks
+        (several returns, or returns and raises) yields one entry per outcome;
+        a raising outcome is returned as a _RaisedVal."""
+        if isinstance(node, ast.Call):
+            r = self.call_forking(node, st)
+            if r is not None:
+                return r
         try:
             v = self.eval(node, st)
-            return [(st, v)]
-        except _Fork as f:
-            # re-evaluate once per callee outcome: the fork carries the
-            # states with the call's result bound to a hidden name
-            res = []
-            for s2, val in f.outcomes:
-                res.append((s2, val))
-            return res
+        except _RaiseSignal as rs:
+            return [(st, _RaisedVal(rs.raised))]
+        return [(st, v)]
+
+    def _inline_target(self, f):
+        """(module, fn, self_obj, closure_env) if f is to be inlined."""
+        if isinstance(f, _LocalFunc):
+            return f.module, f.fn, None, f.env
+        if isinstance(f, _BoundMethod):
+            q = '%s.%s' % (f.cls.name, f.fn.name)
+            qq = '%s.%s' % (f.obj.cls, f.fn.name)
+            if any(k in self.externals for k in (qq, q, f.fn.name)) or \
+                    any(k in self.contracts for k in (qq, q)):
+                return None
+            if q in self.inline or qq in self.inline or '*' in self.inline:
+                return f.module, f.fn, f.obj, None
+            return None
+        if isinstance(f, _FuncRef):
+            q = f.fn.name
+            if q in self.externals or q in self.contracts:
+                return None
+            if q in self.inline or '*' in self.inline:
+                return f.module, f.fn, None, None
+        return None
+
+    def call_forking(self, node, st):
+        try:
+            f = self.eval(node.func, st)
+        except VCError:
+            return None
+        tgt = self._inline_target(f)
+        if tgt is None:
+            return None
+        module, fn, self_obj, closure = tgt
+        args = []
+        for a in node.args:
+            if isinstance(a, ast.Starred):
+                args.extend(self.eval(a.value, st))
+            else:
+                args.append(self.eval(a, st))
+        kwargs = {k.arg: self.eval(k.value, st) for k in node.keywords}
+        if self_obj is not None:
+            args = [self_obj] + args
+        params = [p.arg for p in fn.args.args]
+        sub = {}
+        for p_, v in zip(params, args):
+            sub[p_] = v
+        sub.update(kwargs)
+        env = dict(closure) if closure else {}
+        defaults = dict(zip(params[len(params) - len(fn.args.defaults):],
+                            fn.args.defaults))
+        for p_ in params:
+            if p_ in sub:
+                env[p_] = sub[p_]
+            elif p_ in defaults:
+                env[p_] = self.eval_default(defaults[p_], p_)
+            else:
+                raise VCError('missing argument %s of %s' % (p_, fn.name))
+        st.frames.append(st.env)
+        st.env = env
+        saved_mod, saved_cache = self.module, self._modconst_cache
+        if module is not self.module:
+            self.module = module
+            self._modconst_cache = {}
+        self._fn_stack.append(fn.name)
+        self._fn_nodes.append(fn)
+        try:
+            results = self.exec_block(fn.body, st)
+        finally:
+            self._fn_stack.pop()
+            self._fn_nodes.pop()
+            self.module, self._modconst_cache = saved_mod, saved_cache
+        out = []
+        for s2, sig in results:
+            s2.env = s2.frames.pop()
+            if sig is None:
+                out.append((s2, None))
+            elif sig[0] == 'return':
+                out.append((s2, sig[1]))
+            elif sig[0] == 'raise':
+                out.append((s2, _RaisedVal(sig[1])))
+            else:
+                raise VCError('break/continue outside loop')
+        return out
 
     def eval(self, node, st):
         m = getattr(self, 'expr_' + type(node).__name__, None)
@@ -1028,6 +1138,10 @@ class Executor(object):
                                             'any', 'all'):
                     return _Builtin(a)
             return Opaque(base.name + '.' + a)
+        if hasattr(base, 'vc_getattr'):
+            return base.vc_getattr(a, self, st, node)
+        if isinstance(base, (set, frozenset)):
+            return _SetMethod(base, a)
         if isinstance(base, list):
             if a in ('append', 'extend', 'pop', 'index', 'insert', 'remove',
                      'sort', 'copy', 'count'):
@@ -1129,6 +1243,8 @@ class Executor(object):
             if is_sym(idx):
                 raise VCError('symbolic dict key')
             if idx not in base:
+                if hasattr(base, '__missing__'):
+                    return base[idx]
                 return ('__keyerror__', idx)
             return base[idx]
         if isinstance(base, str):
@@ -1205,6 +1321,14 @@ class Executor(object):
                 st.pc.append(z3.Implies(z3.And(*self._guard), g)
                              if self._guard else g)
             return r
+        if isinstance(a, (set, frozenset)) and isinstance(b, (set,
+                                                              frozenset)):
+            if isinstance(op, ast.BitOr):
+                return a | b
+            if isinstance(op, ast.BitAnd):
+                return a & b
+            if isinstance(op, ast.Sub):
+                return a - b
         if isinstance(op, ast.BitAnd):
             return S.b_and(a, b)
         if isinstance(op, ast.BitOr):
@@ -1342,11 +1466,13 @@ class Executor(object):
         return S.ite(c, a, b)
 
     def expr_GeneratorExp(self, node, st):
-        if len(node.generators) != 1 or node.generators[0].ifs:
+        if len(node.generators) != 1:
             raise VCError('generator expression')
         g = node.generators[0]
         it = self.eval(g.iter, st)
         if isinstance(it, SymSeq):
+            if g.ifs:
+                raise VCError('filtered generator over a symbolic sequence')
             j = S.fresh('j', 'int')
             saved = dict(st.env)
             self.assign(g.target, it.elem(j), st)
@@ -1366,6 +1492,8 @@ class Executor(object):
             it = range(it.start, it.stop, it.step)
         if isinstance(it, dict):
             it = list(it.keys())
+        if isinstance(it, (set, frozenset)):
+            it = sorted(it)
         if not isinstance(it, (list, tuple, range)):
             raise VCError('comprehension over %r' % type(it).__name__)
         out = []
@@ -1420,7 +1548,7 @@ class Executor(object):
             if f.name in self.externals:
                 return self.externals[f.name](self, st, args, kwargs, node)
             return self.call_builtin(f.name, args, kwargs, st, node)
-        if isinstance(f, (_ListMethod, _DictMethod, _StrMethod)):
+        if isinstance(f, (_ListMethod, _DictMethod, _StrMethod, _SetMethod)):
             return f.call(self, args, kwargs, st, node)
         if isinstance(f, _BoundMethod):
             q = '%s.%s' % (f.cls.name, f.fn.name)
@@ -1438,6 +1566,9 @@ class Executor(object):
                                         kwargs, st, node)
             raise VCError('call to %s has neither contract nor inline at %s'
                           % (qq, self.where(node)))
+        if isinstance(f, _LocalFunc):
+            sub = dict(f.env)
+            return self.inline_call(f.module, f.fn, args, kwargs, st, node)
         if isinstance(f, _FuncRef):
             q = f.fn.name
             if q in self.externals:
@@ -1487,10 +1618,14 @@ class Executor(object):
         finally:
             self.module, self._modconst_cache = saved_mod, saved_cache
         res = []
+        if outs and all(o.kind == 'raise' for o in outs) and len(outs) == 1:
+            st.pc[:] = outs[0].state.pc
+            st.trace[:] = outs[0].state.trace
+            raise _RaiseSignal(outs[0].value)
         for o in outs:
             if o.kind == 'raise':
-                raise VCError('inlined callee %s may raise %s' %
-                              (fn.name, o.value))
+                raise VCError('inlined callee %s may raise %s (call it at '
+                              'statement level)' % (fn.name, o.value))
             s2 = State(saved_env, o.state.pc, o.state.trace)
             res.append((s2, o.value))
         if len(res) == 1:
@@ -1672,6 +1807,10 @@ class Executor(object):
             if not args:
                 return []
             v = args[0]
+            if hasattr(v, 'vc_tolist'):
+                return v.vc_tolist()
+            if isinstance(v, (set, frozenset)):
+                return sorted(v)
             if isinstance(v, _Range):
                 return list(range(v.start, v.stop, v.step))
             if isinstance(v, dict):
@@ -1679,6 +1818,24 @@ class Executor(object):
             return list(v)
         if name == 'tuple':
             return tuple(args[0]) if args else ()
+        if name == 'set' or name == 'frozenset':
+            if not args:
+                return set()
+            v = args[0]
+            if hasattr(v, 'vc_toset'):
+                return v.vc_toset()
+            return set(v)
+        if name == 'getattr':
+            o, a = args[0], args[1]
+            if isinstance(o, SymObject):
+                if a in o.attrs:
+                    return o.attrs[a]
+                r = self.find_method(o, a) if o.cls is not None else None
+                if r is not None:
+                    return _BoundMethod(o, r[0], r[1], r[2])
+                if len(args) > 2:
+                    return args[2]
+            raise VCError('getattr(%r, %r)' % (o, a))
         if name == 'dict':
             d = dict(args[0]) if args else {}
             d.update(kwargs)
@@ -1693,6 +1850,8 @@ class Executor(object):
         if name == 'zip':
             return [tuple(x) for x in zip(*args)]
         if name == 'sorted':
+            if hasattr(args[0], 'vc_sorted'):
+                return args[0].vc_sorted()
             return sorted(args[0])
         if name == 'str':
             return str(args[0]) if not is_sym(args[0]) else '<str>'
@@ -1766,6 +1925,21 @@ class _SymGen(object):
             return S.b_or(self.body, S.cmp('<=', self.length, 0))
         return z3.ForAll([self.j], z3.Implies(z3.And(
             self.j >= 0, self.j < S.to_z3(self.length)), self.body))
+
+
+class _LocalFunc(object):
+    def __init__(self, module, fn, env):
+        self.module, self.fn, self.env = module, fn, env
+
+
+class _RaisedVal(object):
+    def __init__(self, raised):
+        self.raised = raised
+
+
+class _RaiseSignal(Exception):
+    def __init__(self, raised):
+        self.raised = raised
 
 
 class _NoMerge(Exception):
@@ -1863,6 +2037,25 @@ class _ListMethod(object):
         raise VCError('list.%s' % self.name)
 
 
+class _SetMethod(object):
+    def __init__(self, s, name):
+        self.s, self.name = s, name
+
+    def call(self, ex, args, kwargs, st, node):
+        n = self.name
+        a0 = args[0] if args else None
+        if a0 is not None and hasattr(a0, 'vc_setop'):
+            # concrete set combined with a symbolic one
+            return a0.vc_setop(n, self.s, True)
+        if n in ('update', 'add', 'discard', 'remove', 'clear'):
+            getattr(self.s, n)(*args)
+            return None
+        if n in ('union', 'difference', 'intersection', 'issubset',
+                 'issuperset', 'copy', 'symmetric_difference'):
+            return getattr(self.s, n)(*args)
+        raise VCError('set.%s' % n)
+
+
 class _DictMethod(object):
     def __init__(self, d, name):
         self.d, self.name = d, name
@@ -1914,7 +2107,8 @@ _BUILTIN_NAMES = {'abs', 'min', 'max', 'float', 'int', 'len', 'range',
                   'print', 'bool', 'list', 'tuple', 'dict', 'sum',
                   'enumerate', 'zip', 'sorted', 'str', 'isinstance',
                   'hasattr', 'declare', 'printf', 'implies', 'ite',
-                  'c_array', 'fabs', 'isinf', 'any', 'all'}
+                  'c_array', 'fabs', 'isinf', 'any', 'all', 'set',
+                  'frozenset', 'getattr'}
 
 
 def _isqrt(n):
